@@ -434,7 +434,9 @@ class Fn:
                     if t is not None and t.get("k") == "DeclRefExpr":
                         assigned.add(t.get("d"))
             for d in self._nodes:
-                if d.get("k") == "ParamBind" and d["d"] not in assigned:
+                # a by-value parameter that the helper reassigns is a separate variable; a reference parameter *is* its
+                # argument even when assigned (out-parameters)
+                if d.get("k") == "ParamBind" and (d["d"] not in assigned or str(d.get("t", "")).rstrip().endswith("&")):
                     bm[d["d"]] = d["init"]
             self._bind = bm
         return bm
@@ -669,12 +671,15 @@ def load_unit(name, extra_flags=(), src=None, root=None, tag=""):
     with open(out) as f:
         d = json.load(f)
     os.unlink(out)
+    from .roles import normalise
+    renamed = normalise(d)
     if not os.environ.get("FRG_NO_INLINE"):
         from .inline import inline_unit
         drop = inline_unit(d)
         if drop:
             d["functions"] = [f for f in d["functions"] if f["did"] not in drop]
     u = Unit(name, d, src)
+    u.renamed = renamed
     _unit_cache[key] = u
     return u
 
